@@ -426,7 +426,7 @@ pub fn run(tier: Tier) -> i32 {
                     continue;
                 }
                 // the high-entropy body: flate2 codecs only (brotli quality 11 on 200 KiB of noise is too slow per schedule)
-                if b.len() > 150000 && matches!(enc, Enc::Brotli(..)) {
+                if b.contains("<div>noise</div>") && matches!(enc, Enc::Brotli(..)) {
                     continue;
                 }
                 let hv = if work.len() % 5 == 0 { enc.header().to_uppercase() } else { enc.header().to_string() };
